@@ -27,8 +27,8 @@ RULE = (
     "distinct = sha1(graph, script, variant, history); non-trivial = at least one non-'behave' action was executed."
 )
 ASSUMPTIONS = ["the backend never returns a value it was not given for that fingerprint (it follows the Cache contract)"]
-FLOORS = {"scripts": (2500, 60000), "faulty_actions_executed": (5000, 100000), "evaluations_compared": (8000, 200000)}
-COVER = {"actions_executed": ["miss", "forget", "lie-exists", "fail-get"], "methods_faulted": ["get", "set", "exists"]}
+FLOORS = {"scripts": (2500, 60000), "faulty_actions_executed": (5000, 100000), "evaluations_compared": (8000, 200000), "persistent_fault_evaluations": (4000, 4000)}
+COVER = {"actions_executed": ["miss", "forget", "lie-exists", "fail-get"], "methods_faulted": ["get", "set", "exists"], "persistent_modes": ["unreadable", "blind", "amnesic"]}
 SHARDS_QUICK = 4
 
 
@@ -85,6 +85,80 @@ class FaultyCache(Cache):
             self.store.pop(fp, None)
             return False
         return fp in self.store
+
+
+class Runaway(BaseException):
+    """Raised by the persistent backend when one evaluation makes an unreasonable number of backend calls."""
+
+
+class PersistentlyFaultyCache(Cache):
+    """Follows the Cache contract, but from its `after`-th call on behaves in one fixed faulty way for good:
+    unreadable = every stored entry is still reported by exists() and can never be read back (corrupt file, expired
+    blob); blind = exists() always says no; amnesic = accepts values and never keeps them."""
+
+    def __init__(self, mode, after, budget, own_exists=True):
+        self.store, self.mode, self.after, self.n, self.budget, self.calls = {}, mode, after, 0, budget, 0
+        self.own_exists = own_exists
+
+    def _tick(self):
+        self.n += 1
+        self.calls += 1
+        if self.calls > self.budget[0]:
+            raise Runaway(f"more than {self.budget[0]} backend calls in one evaluation")
+        return self.n > self.after
+
+    def get(self, evaluatable, options):
+        faulty = self._tick()
+        fp = evaluatable.fingerprint(options)
+        if fp not in self.store or (faulty and self.mode in ("unreadable", "amnesic")):
+            raise CacheGetFailure(evaluatable, options, self)
+        return self.store[fp]
+
+    def set(self, evaluatable, options, value):
+        faulty = self._tick()
+        if faulty and self.mode == "amnesic":
+            return
+        self.store[evaluatable.fingerprint(options)] = value
+
+    def exists(self, evaluatable, options):
+        if not self.own_exists:
+            return super().exists(evaluatable, options)
+        faulty = self._tick()
+        if faulty and self.mode == "blind":
+            return False
+        return evaluatable.fingerprint(options) in self.store
+
+
+def run_persistent(ctx, gname, program, history, mode, after, own_exists):
+    """A backend that stays faulty: every evaluation still terminates (bounded number of backend calls) with the
+    value of a reliable backend."""
+    caches = []
+    budget = [400]
+
+    def factory(kind):
+        c = PersistentlyFaultyCache(mode, after, budget, own_exists)
+        caches.append(c)
+        return c
+
+    G = build(program, cache_factory=factory)
+    clean = build(program)
+    W = {"family": "persistent", "graph": gname, "mode": mode, "after": after, "own_exists": own_exists, "history": history}
+    for step, o in enumerate(history):
+        exp = observe(clean.root.evaluate, copy.deepcopy(o))
+        for c in caches:
+            c.calls = 0
+        try:
+            got = observe(G.root.evaluate, copy.deepcopy(o))
+        except Runaway as e:
+            ctx.violation("unbounded-backend-calls", f"{gname} step {step}, backend persistently {mode} after call {after}: {e}", {**W, "step": step})
+            return
+        ctx.evaluations += 1
+        ctx.count("persistent_fault_evaluations")
+        if got != exp:
+            ctx.violation("faulty-backend-changes-outcome", f"{gname} step {step}, backend persistently {mode} after call {after}: got {short(got)}, a reliable backend gives {short(exp)}", {**W, "step": step})
+            return
+    ctx.cover("persistent_modes", mode)
+    ctx.nontrivial(spec_hash(["persistent", gname, mode, after, own_exists]))
 
 
 O = directed.O
@@ -166,6 +240,16 @@ def run(ctx):
             if not ctx.quick and gname not in ("single", "diamond") and k % 3:
                 continue  # thorough: full 5^6 on two graphs, a third of it on the others
             run_script(ctx, gname, program, hist, actions, own)
+    # backends that stay faulty
+    k = 0
+    for gname, program in GRAPHS.items():
+        hist = HISTORIES[2] if gname == "overload" else HISTORIES[3] if gname in FAILING else HISTORIES[1]
+        for mode in ("unreadable", "blind", "amnesic"):
+            for after in range(0, 13):
+                for own in (True, False):
+                    k += 1
+                    if k % ctx.shards == ctx.shard:
+                        run_persistent(ctx, gname, program, hist + hist, mode, after, own)
     # random longer scripts
     for i in range(ctx.n(1200, 40000)):
         r = case_rng(ctx, i)
@@ -177,4 +261,7 @@ def run(ctx):
 
 def replay(ctx, rep):
     w = rep["witness"]
+    if w.get("family") == "persistent":
+        run_persistent(ctx, w["graph"], GRAPHS[w["graph"]], w["history"], w["mode"], w["after"], w["own_exists"])
+        return
     run_script(ctx, w["graph"], GRAPHS[w["graph"]], w["history"], w["script"], w["own_exists"])
